@@ -40,3 +40,18 @@ func TestC13Corpus(t *testing.T) {
 }
 
 func TestC13MultiRapid(t *testing.T) { C13Multi.RunRapid(t) }
+
+// TestC12Scope: small-scope history enumeration (first use x abandon point x Reset/Init x probe).
+func TestC12Scope(t *testing.T) {
+	var jobs []func(emit func(CaseReset) bool)
+	var descs []string
+	for _, sc := range c12ScopeList(envInt("VERIF_DEPTH", 0)) {
+		sc := sc
+		descs = append(descs, sc.desc())
+		for sh := 0; sh < 8; sh++ {
+			sh := sh
+			jobs = append(jobs, func(emit func(CaseReset) bool) { sc.produce(sh, 8, emit) })
+		}
+	}
+	C12Scope.RunJobs(t, descs, jobs)
+}
